@@ -822,10 +822,25 @@ opened:
 	w.settle(8)
 	w.Log.Add(Event{Ev: "ready"})
 
+	realTmo := time.Duration(0)
+	if w.Cfg.TimeoutMs > 0 && w.Cfg.TimeoutMs < 60000 {
+		realTmo = time.Duration(w.Cfg.TimeoutMs) * time.Millisecond // the proxy's request timeout runs in real time here
+	}
+	slow := false
 	for i := range sc.Steps {
 		st := &sc.Steps[i]
+		t0 := time.Now()
+		ripen := false
 		for j := range st.Stim {
+			if st.Stim[j].Op == "ripen" {
+				ripen = true
+			}
 			w.apply(&st.Stim[j])
+		}
+		if realTmo > 0 && !ripen && !slow && time.Since(t0) > realTmo/4 {
+			// the machine is so slow that real deadlines may pass where the scenario does not expect it
+			slow = true
+			w.Log.Add(Event{Ev: "slowenv"})
 		}
 		if w.Dead {
 			break
